@@ -41,6 +41,7 @@ SafeDecoded(v) ==
   /\ v >= 32 /\ v # 127
   /\ v \notin {8232, 8233}
   /\ ~(55296 <= v /\ v <= 57343)
+  /\ ~(48 <= v /\ v <= 57)          \* a raw digit would merge with a preceding \0 / octal escape
 
 Keywords ==
   { [s |-> <<102,117,110,99,116,105,111,110>>, ty |-> "FUNCTION"],
